@@ -138,7 +138,7 @@ def gen_history(rng):
             req += [f for f in files if rng.random() < 0.15 and f not in req]
             cand = sorted(uni.closure(req))
             fail = [o for o in cand if rng.random() < rng.choice([0, 0, 0.3])]
-            steps.append({"op": "transfer", "req": req, "shallow": shallow, "fail": fail})
+            steps.append({"op": "transfer", "req": req, "shallow": shallow, "fail": fail, "handle": rng.randrange(2)})
         elif r < 0.6:
             steps.append({"op": "delete", "dirs": [t for t in trees if rng.random() < 0.4], "files": [f for f in files if rng.random() < 0.3],
                           "keep_closed": rng.random() < 0.5})
@@ -151,11 +151,26 @@ def gen_history(rng):
             steps.append({"op": "external_add", "oids": add})
         else:
             req = [o for o in uni.all_oids() if rng.random() < 0.6] or trees[:1]
-            steps.append({"op": "status", "req": req, "shallow": rng.random() < 0.5})
+            steps.append({"op": "status", "req": req, "shallow": rng.random() < 0.5, "handle": rng.randrange(2)})
+    if rng.random() < 0.3:
+        # a history around one directory: an early query through one handle, a push through the other, the directory
+        # vanishes from the remote, a query through the first handle again
+        t = rng.choice(trees)
+        closed = [t] + list(uni.listing(t))
+        a = rng.randrange(2)
+        steps = steps[: rng.randrange(0, 3)] + [
+            {"op": "status", "req": closed, "shallow": rng.random() < 0.5, "handle": a},
+            {"op": "transfer", "req": closed, "shallow": True, "fail": [], "handle": 1 - a},
+            {"op": "delete", "dirs": [t], "files": [f for f in uni.listing(t) if rng.random() < 0.5], "keep_closed": False},
+            {"op": "status", "req": closed, "shallow": rng.random() < 0.5, "handle": a},
+        ]
     return {
         "files": {k: v.decode() for k, v in uni.files.items()},
         "trees": {d: {"/".join(k): v for k, v in e.items()} for d, e in uni.trees.items()},
         "steps": steps, "dest_local": rng.random() < 0.4,
+        # the persistent index is opened once, or twice (two Remote objects / two processes sharing one index directory):
+        # each step then goes through the handle it names
+        "handles": rng.choice([1, 1, 2]),
     }, uni
 
 
@@ -167,7 +182,8 @@ def check_history(ctx, h, uni):
     src = stores.make_odb(os.path.join(root, "src"), local=False)
     dest = stores.make_odb(os.path.join(root, "dest"), local=h["dest_local"])
     stores.populate(src, uni, uni.all_oids())
-    idx = stores.new_index(os.path.join(root, "tmp"))
+    idxs = [stores.new_index(os.path.join(root, "tmp")) for _ in range(h.get("handles", 1))]
+    idx = idxs[0]
     ever = set()
     L = uni.L_json()
     case = dict(h)
@@ -176,6 +192,7 @@ def check_history(ctx, h, uni):
     try:
         for n, st in enumerate(h["steps"]):
             before = stores.listing_of(dest.path)
+            idx = idxs[st.get("handle", 0) % len(idxs)]
             idx_before = stores.index_dump(idx)
             ctx.count("step:" + st["op"])
             if st["op"] == "transfer":
@@ -244,7 +261,9 @@ def check_history(ctx, h, uni):
                     ctx.oracle(d in now, case, {"why": "after a status query the index still holds a directory that is not in the store",
                                                 "step": n, "dir": d})
     finally:
-        idx.close()
+        for i in idxs:
+            i.close()
+    ctx.count("index_handles=%d" % len(idxs))
     for (n, kind, impl), ans in zip(work, ctx.driver.batch(reqs)):
         if kind == "transfer":
             model = xfer.canon_model(ans)
